@@ -487,6 +487,10 @@ impl<'de> Deserialize<'de> for IpSubnet {
     }
 }
 
+#[cfg(pendulum_project_ntpd_rs_verif)]
+#[path = "/verif/hooks/ntp_proto/server.rs"]
+pub mod verif_probe;
+
 #[cfg(test)]
 #[expect(
     clippy::too_many_lines,
